@@ -179,42 +179,25 @@ def rule_m1(ck, prog):
             ck.violated("C03-M1", st, K.loc(f), sorted(set(probs))[0], {"all": sorted(set(probs))})
         else:
             ck.holds("C03-M1", st, K.loc(f), "%d paths: returns the position of the first member before size/NUL, else NULL" % len(sums))
-    # digits after a numeric-suffix keyword (no destination)
+    # digits after a numeric-suffix keyword (no destination): the function is evaluated on ("AB", "AB" + b) for all 256 b
     f = prog.fn("compareStrAndNum")
     if f is not None:
         st = K.site(f, "suffix-digits", 0)
-        tests = [b for b in f.blocks.values() if b.term_kind == "IfStmt" and b.cond is not None and "str2[" in b.cond.src]
-        if len(tests) != 1:
-            ck.anchor_lost("C03-M1", "digit test of compareStrAndNum")
-        else:
-            c = tests[0].cond
-            key = None
-            for x in c.walk():
-                if x.k == "ArraySubscriptExpr":
-                    key = x.src.replace(" ", "")
-            try:
-                got = {b for b in byte_set(c, key, prog)}
-                # the true edge is the refusing one (`!isdigit`)
-                def refuses(blk):
-                    if blk is None:
-                        return False
-                    for e in blk.elems:
-                        if e.k == "BinaryOperator" and C.store_target(e) is not None and C.const_of(e.child(1)) == 0:
-                            return True
-                        if e.k == "ReturnStmt" and e.ch and C.const_of(e.child(0)) == 0:
-                            return True
-                    return False
-                refuse_on_true = refuses(tests[0].succs[0])
-                if not refuse_on_true and not refuses(tests[0].succs[1] if len(tests[0].succs) > 1 else None):
-                    raise CS.CannotEvaluate("neither edge of the digit test refuses")
-                acc = (set(range(256)) - got) if refuse_on_true else got
-                acc &= set(range(128))
-                if acc == DIGITS:
-                    ck.holds("C03-M1", st, K.loc(f, c), "characters after the keyword must be in {0-9}")
-                else:
-                    ck.violated("C03-M1", st, K.loc(f, c), "characters {%s} are accepted after a numeric-suffix keyword (expected 0-9)" % show(acc)[:40])
-            except CS.CannotEvaluate as ex:
-                ck.undecided("C03-M1", st, K.loc(f, c), "cannot evaluate: %s" % ex)
+        names = [p_["name"] for p_ in f.params]
+        try:
+            acc = set()
+            for b in range(256):
+                r = CS.run_with_strings(f, {names[1]: 2, names[3]: 3, names[4]: 0},
+                                        {names[0]: [65, 66], names[2]: [97, 98, b]}, prog)
+                if r:
+                    acc.add(b)
+            acc &= set(range(1, 128))
+            if acc == DIGITS:
+                ck.holds("C03-M1", st, K.loc(f), "without a destination the character after the keyword must be in {0-9} (all 256 values tried)")
+            else:
+                ck.violated("C03-M1", st, K.loc(f), "characters {%s} are accepted after a numeric-suffix keyword (expected 0-9)" % show(acc)[:40])
+        except CS.CannotEvaluate as ex:
+            ck.undecided("C03-M1", st, K.loc(f), "cannot evaluate compareStrAndNum: %s" % ex)
 
 
 def rule_m2(ck, prog):
